@@ -112,6 +112,9 @@ def run(ctx):
             return err is None and fixed_point(Tc, cx) is not None
 
         lty, lx, path = locate(ty, x, fails)
+        if lty.k in ('dict', 'counter', 'set') and sum(1 for k_ in lx if c05._has_nan(k_)) >= 2:
+            ctx.count('out_of_scope_nan_keys')       # keys distinct only because NaN != NaN share one data image (see C05)
+            return True
         if lty is not ty:
             lb = fixed_point(build(lty), lx)
             if lb:
